@@ -7,6 +7,7 @@ import (
 
 	"verif/ref"
 	"verif/ref/krbmsg"
+	"verif/ref/pac"
 	"verif/ref/rcrypto"
 )
 
@@ -23,4 +24,10 @@ func main() {
 		os.Exit(3)
 	}
 	fmt.Printf("krbmsg: %d MIT vectors round-trip\n", n)
+	n, err = pac.SelfTest(ref.PACSamples())
+	if err != nil {
+		fmt.Println("REFERENCE-ERROR", err)
+		os.Exit(3)
+	}
+	fmt.Printf("pac: %d captured KERB_VALIDATION_INFO samples reproduced byte for byte\n", n)
 }
